@@ -22,7 +22,7 @@ TopListsDef ==
     [] Shape = "cycle"   -> {<<"A">>, <<"B">>, <<"C">>, <<"D">>, <<"E">>, <<"C", "B">>, <<"E", "D">>}
 Init == SInit /\ hist = <<>>
 Next == \/ (\E tops \in TopLists : Call(tops) /\ hist' = Append(hist, tops))
-        \/ ((VisitChild \/ VisitTop \/ ApplyExit \/ FailAt \/ NextPass) /\ UNCHANGED hist)
+        \/ (((\E m \in Mods : Edit(m)) \/ VisitChild \/ VisitTop \/ ApplyExit \/ FailAt \/ NextPass) /\ UNCHANGED hist)
 Spec == Init /\ [][Next]_vars
 (* termination: under weak fairness of the scheduler's own steps every call ends - returned or raised -, circular hierarchies included
    (the `Circular` decision is what makes that so); and nothing that sits on a cycle, or reaches one, is ever marked elaborated *)
